@@ -8,7 +8,7 @@ From Tevec Require Import Base.Num Base.XR Model.Features Model.Cmp Model.Norm M
      Proofs.Kernels2 Proofs.Kernels3 Model.SortCmp Model.Rank Model.Partition Model.Quantile Model.KernelsMap
      Proofs.TransQuantile Proofs.KernelsMap Proofs.KernelsMap2 Proofs.OrderXR Proofs.KernelsXR.
 (* extension: the kernel traces step by step (part 12) *)
-From Tevec Require Import Model.KernelSteps Proofs.KernelSteps.
+From Tevec Require Import Model.KernelSteps Proofs.KernelSteps Model.KernelsMapFast Proofs.KernelsMapFast.
 
 (* (1) unchecked element reads and output writes of the remove/add bodies are in bounds *)
 Theorem C10_apply_reads_in_bounds :
@@ -488,6 +488,12 @@ Theorem C10_vrank_segs_in_bounds :
   forall (A T : Type) (NA : Num A) (DT : IsNone T A) (DX : IsNoneX T A) (pct rev : bool) (xs : list T),
     Forall (fun s => Forall (acc_ok (length xs) (length xs)) (wseg_accs s)) (vrank_segs pct rev xs).
 Proof. intros. apply vrank_segs_in_bounds. Qed.
+(* the interpreter of Run/RunC10.v runs vrank_tr_fast: the text of vrank_tr with a bind that evaluates its
+   continuation once (vm_compute shares nothing; `tbind` mentions `f x` twice) — the same function *)
+Theorem C10_vrank_tr_fast_eq :
+  forall (A T : Type) (NA : Num A) (DT : IsNone T A) (DX : IsNoneX T A) (pct rev : bool) (xs : list T),
+    vrank_tr_fast pct rev xs = vrank_tr pct rev xs /\ vrank_segs_fast pct rev xs = vrank_segs pct rev xs.
+Proof. intros. split; [apply vrank_tr_fast_eq|apply vrank_segs_fast_eq]. Qed.
 (* the class representative used to compare vrank "modulo ties": an index <= i holding an element of the class *)
 Theorem C10_class_rep :
   forall (T : Type) (same : T -> T -> bool) (xs : list T) (i : nat),
@@ -594,3 +600,4 @@ Print Assumptions C10_vrank_segs_flatten.
 Print Assumptions C10_vrank_segs_each_slot_once.
 Print Assumptions C10_vrank_segs_in_bounds.
 Print Assumptions C10_class_rep.
+Print Assumptions C10_vrank_tr_fast_eq.
